@@ -113,6 +113,7 @@ class GearModel:
         # behaviour switches used for fault injection
         self.ignore_program = False           # never stores PROGRAM SHORT ADDRESS
         self.mute_verify = False              # never answers VERIFY SHORT ADDRESS
+        self.ignore_set_short = False         # SET SHORT ADDRESS has no effect (the stored address is stuck)
         self.program_failures_left = 0        # this many further PROGRAM SHORT ADDRESS that reach the unit are not stored
         self.no_dtr0_increment = False        # memory access does not advance DTR0
         # observations
@@ -249,7 +250,9 @@ class GearModel:
         elif 0x70 <= op <= 0x7F:
             self.groups.discard(op & 0x0F)
         elif op == OP_SET_SHORT:
-            if self.dtr0 == 0xFF:
+            if self.ignore_set_short:
+                pass                          # (fault injection) the short address is stuck
+            elif self.dtr0 == 0xFF:
                 self.short = None
             elif self.dtr0 & 0x81 == 0x01:
                 self.short = self.dtr0 >> 1
